@@ -432,7 +432,7 @@ def rule_rows(chk, fb, store, mapf):
     rd = chk.rule(
         "C10.d",
         "every inserted cell has a row entry: the store's inserters are called only from contexts that establish the row first — (i) the row table is given an entry for the same row term before the map insertion, (ii) a reader routine filling a caller-provided store whose callers record the row afterwards on every path, or (iii) a store that is returned and never attached to a sheet",
-        floor=4,
+        floor=3,
     )
     inserters = set()
     for d, b in fb.mir.items():
@@ -462,6 +462,12 @@ def rule_rows(chk, fb, store, mapf):
                 kernel = True
             except NotKernel:
                 kernel = False
+            # a routine that fills a store it was handed (by &mut parameter) is judged by its callers, loop-free or not
+            if kernel and bi >= 0:
+                fl_ = Flow(fb, cb)
+                t_ = cb["blocks"][bi]["t"]
+                if t_["args"] and any(a[0] == "arg" and store in fb.ty(cb["locals"][a[1]]["t"]) and "&mut" in fb.ty(cb["locals"][a[1]]["t"]) for a in fl_.atoms(t_["args"][0], through_calls=False)):
+                    kernel = False
             if kernel:
                 ok = True
                 detail = ""
@@ -491,27 +497,41 @@ def rule_rows(chk, fb, store, mapf):
                     chk.ob(rd, inst, False, where="%s:%s" % (cb["file"], t["ln"]), detail="inserts into a store that is not a parameter, in a function with loops, without establishing the row")
                     continue
                 p = params[0]
-                good = True
-                notes = []
-                for c2, b2 in sorted(set(fb.callers.get(caller, []))):
-                    c2b = fb.mir[c2]
-                    cfg2 = CFG(c2b)
-                    fl2 = Flow(fb, c2b)
-                    t2 = c2b["blocks"][b2]["t"]
-                    a2 = fl2.atoms(t2["args"][p - 1])
-                    from_sheet = any(x[0] == "call" and "cell_collection" in x[1] for x in a2) or any(x[0] == "field" and x[2] == "cell_collection" for x in a2)
-                    if from_sheet:
-                        # (ii) the row object (receiver) is stored afterwards on every path
-                        stores = [bi3 for bi3, t3 in fb.calls_in(c2b) if t3.get("fn", "").endswith("::set_row_dimension")]
-                        ok2 = bool(stores) and cfg2.every_path_to_exit_passes(b2, stores) or _loop_body_passes(cfg2, b2, stores)
-                        notes.append("%s: sheet store, row recorded afterwards: %s" % (c2.split("::")[-1], ok2))
-                        good = good and ok2
-                    else:
-                        # (iii) a local store: must be returned, never attached
-                        attached = any(t3.get("fn", "").endswith("set_cell_collection") or "set_cell_collection" in t3.get("fn", "") for _, t3 in fb.calls_in(c2b))
-                        r0 = fl2.atoms(0)
-                        notes.append("%s: local store, attached to a sheet: %s" % (c2.split("::")[-1], attached))
-                        good = good and not attached
+
+                def callers_establish(fn, p, depth=0):
+                    """(ok, notes): every caller of fn hands in, as parameter p, a sheet's store and records the row afterwards,
+                    or a local store that is never attached; a caller that merely passes its own parameter on is followed up."""
+                    good = True
+                    notes = []
+                    for c2, b2 in sorted(set(fb.callers.get(fn, []))):
+                        c2b = fb.mir[c2]
+                        cfg2 = CFG(c2b)
+                        fl2 = Flow(fb, c2b)
+                        t2 = c2b["blocks"][b2]["t"]
+                        if p - 1 >= len(t2["args"]):
+                            continue
+                        a2 = fl2.atoms(t2["args"][p - 1])
+                        from_sheet = any(x[0] == "call" and "cell_collection" in x[1] for x in a2) or any(x[0] == "field" and x[2] == "cell_collection" for x in a2)
+                        up = [x[1] for x in fl2.atoms(t2["args"][p - 1], through_calls=False) if x[0] == "arg" and store in fb.ty(c2b["locals"][x[1]]["t"]) and "&mut" in fb.ty(c2b["locals"][x[1]]["t"])]
+                        if from_sheet:
+                            # (ii) the row object (receiver) is stored afterwards on every path
+                            stores = [bi3 for bi3, t3 in fb.calls_in(c2b) if t3.get("fn", "").endswith("::set_row_dimension")]
+                            ok2 = bool(stores) and cfg2.every_path_to_exit_passes(b2, stores) or _loop_body_passes(cfg2, b2, stores)
+                            notes.append("%s: sheet store, row recorded afterwards: %s" % (c2.split("::")[-1], ok2))
+                            good = good and ok2
+                        elif up and depth < 3:
+                            ok2, n2 = callers_establish(c2, up[0], depth + 1)
+                            notes.append("%s passes its own store parameter on" % c2.split("::")[-1])
+                            notes += n2
+                            good = good and ok2
+                        else:
+                            # (iii) a local store: must be returned, never attached
+                            attached = any(t3.get("fn", "").endswith("set_cell_collection") or "set_cell_collection" in t3.get("fn", "") for _, t3 in fb.calls_in(c2b))
+                            notes.append("%s: local store, attached to a sheet: %s" % (c2.split("::")[-1], attached))
+                            good = good and not attached
+                    return good, notes
+
+                good, notes = callers_establish(caller, p)
                 chk.ob(rd, inst, good, where="%s:%s" % (cb["file"], t["ln"]), detail="; ".join(notes))
 
 
@@ -589,6 +609,78 @@ def rule_extent_wrappers(chk, fb, store, sets):
         chk.ob(r, "%s" % d.split("::", 2)[-1], not other, where=fb.loc(d), detail="result derives from the store's extent%s" % (" only" if not other else " AND from the owner's field(s) %s" % other))
 
 
+def rule_range_bounds(chk, fb, store, sets, orient, rid="C10.c.bound"):
+    """The ordered indexes answer "all cells of row r / column c" by a range query (r, 0)..=(r, BOUND): BOUND has to be at
+    least the largest value the second component can take - 16384 where it is a column, 1048576 where it is a row."""
+    r = chk.rule(
+        rid,
+        "range queries on the ordered indexes reach the end of the axis: the upper bound of the second key component is u32::MAX or at least the grid maximum of the axis that component holds in that index (column: 16384, row: 1048576)",
+        floor=3,
+    )
+    for d, b in sorted(fb.mir.items()):
+        if b.get("self_ty") != store or "::{closure" in d:
+            continue
+        fl = Flow(fb, b)
+        n = 0
+        for bi, t in fl.calls(lambda t: t.get("fn", "").split("::")[-1] == "range" and "BTreeSet" in t.get("fn", "")):
+            at0 = fl.atoms(t["args"][0], through_calls=False)
+            which = [s_ for s_ in sets if ("field", store, s_) in at0]
+            if len(which) != 1 or len(t["args"]) < 2:
+                continue
+            consts = sorted(a[1] for a in fl.atoms(t["args"][1]) if a[0] == "const" and isinstance(a[1], int))
+            if not consts:
+                continue
+            upper = consts[-1]
+            second_is_row = orient.get(which[0]) == "swap"
+            need = 1048576 if second_is_row else 16384
+            ok = upper >= need
+            chk.touch(d)
+            chk.ob(r, "%s:%s#%d" % (d.split("::")[-1], which[0], n), ok, where="%s:%s" % (b["file"], t.get("ln")),
+                   detail="range query on %s (second component = %s): upper bound %s, needs >= %d" % (which[0], "row" if second_is_row else "column", upper, need))
+            n += 1
+
+
+def rule_row_entry_removal(chk, fb, store, rid="C10.d.remove"):
+    """The sheet writer emits the cells of the rows it knows (rows with an entry in the row table): a row entry may go
+    only together with the row's cells.  Outside the row container's own shifting code, a function that drops a row entry
+    and removes cells must do both or neither."""
+    r = chk.rule(
+        rid,
+        "a row entry goes only with its cells: in every function outside the row container that removes an entry of the row table and also removes cells, the entry removal and the cell-removal loop are control-equivalent (each is passed whenever the other is - no early exit between them)",
+        floor=1,
+    )
+    for d, b in sorted(fb.mir.items()):
+        if b["file"].startswith("tests") or "::{closure" in d or (b.get("self_ty") or "").endswith("::Rows") or (b.get("impl_self") or "").endswith("::Rows"):
+            continue
+        fl = Flow(fb, b)
+        drops = []
+        for bi, t in fl.calls():
+            f = t.get("fn", "")
+            if "HashMap" in f and f.split("::")[-1] in ("remove", "remove_entry") and t["args"] and "p" in t["args"][0]:
+                ty = fl.local_ty(t["args"][0]["p"]["l"])
+                if ty.startswith("&mut std::collections::HashMap<u32, std::boxed::Box<") and ty.endswith("Row>>"):
+                    drops.append((bi, t))
+        if not drops:
+            continue
+        cell_removals = [bi for bi, t in fl.calls(lambda t: t.get("fn", "") == store + "::remove")]
+        if not cell_removals:
+            continue
+        cfg = CFG(b)
+        loops = {}
+        for tl, h in cfg.back_edges():
+            loops.setdefault(h, set()).update(cfg.natural_loop(tl, h))
+        chk.touch(d)
+        for n, (bi, t) in enumerate(drops):
+            # the loop that removes the cells: smallest loop around a cell removal that does not contain the entry removal
+            heads = []
+            for cr in cell_removals:
+                cands = [(len(body), h) for h, body in loops.items() if cr in body and bi not in body]
+                heads.append(min(cands)[1] if cands else cr)
+            ok = bool(heads) and all((cfg.dominates(bi, h) and cfg.postdominates(h, bi)) or (cfg.dominates(h, bi) and cfg.postdominates(bi, h)) for h in heads)
+            chk.ob(r, "%s:row-entry#%d" % (d.split("::", 1)[-1], n), ok, where="%s:%s" % (b["file"], t.get("ln")),
+                   detail="row entry removed here; the cell removal %s" % ("is passed on exactly the same paths" if ok else "is NOT passed on the same paths: an exit between the two leaves cells in a row the writer no longer knows (they vanish from the saved file)"))
+
+
 def run(chk, fb, tier):
     store, mapf, sets = find_store(fb)
     chk.rule("C10.anchor", "the cell store located by role (a HashMap<(u32,u32),Box<Cell>> with two BTreeSet<(u32,u32)> indexes)", floor=1)
@@ -601,5 +693,7 @@ def run(chk, fb, tier):
     rule_rows(chk, fb, store, mapf)
     rule_entry_keys(chk, fb, store, mapf)
     rule_extent_wrappers(chk, fb, store, sets)
+    rule_row_entry_removal(chk, fb, store)
+    rule_range_bounds(chk, fb, store, sets, orient)
     chk.assume("std HashMap / BTreeSet are correct; BTreeSet<(u32,u32)> iterates in lexicographic order")
     chk.note("not decided: agreement of all listings after arbitrary histories (follows from a-c only under the std-collections assumption)")
